@@ -63,6 +63,15 @@ def programs():
     out.append(("multi-item with: both items", "with open('/dev/null') as Y, open('/dev/null') as X:\n    X -l\n", 2, True))
     out.append(("async-free nested with inside def", "def f():\n    with open('/dev/null'), open('/dev/null') as X:\n        X -l\n", 3, True))
     out.append(("for with tuple target", "for Y, X in []:\n    X -l\n", 2, True))
+    out.append(("nested tuple target: the innermost name", "Y, (Z, X) = 1, (2, 3)\nX -l\n", 2, True))
+    out.append(("nested list target with a starred name", "[Y, [Z, *X]] = 1, (2, 3)\nX -l\n", 2, True))
+    out.append(("nested tuple target in a for", "for Y, (Z, X) in []:\n    X -l\n", 2, True))
+    out.append(("nested tuple target in a with", "with open('/dev/null') as (Y, (Z, X)):\n    X -l\n", 2, True))
+    out.append(("lambda parameter under `not` (nothing on the line is a command)", "f = lambda X: not X\n", 1, True))
+    out.append(("lambda parameter under `and`", "f = lambda X, Y=1: X and Y\n", 1, True))
+    out.append(("lambda parameter under `or`, keyword-only and star parameters", "f = lambda *X, k=0, **Y: X or k or Y\n", 1, True))
+    out.append(("lambda parameter does not leak to the next line", "f = lambda X: not X\nX -l\n", 2, False))
+    out.append(("nested lambda sees the outer parameter", "f = lambda X: (lambda Y: X and Y)\n", 1, True))
     out.append(("session name", "S -l\n", 1, True))
     out.append(("unbound", "X -l\n", 1, False))
     return out
